@@ -221,6 +221,7 @@ struct SearchOut {
     roots: u32,
     q_at_cap: Option<u64>,
     panicked: bool,
+    runaway: bool, // ended by the hook clock: still searching long after the expiry
     order: Vec<(u8, Vec<String>)>,
 }
 
@@ -249,6 +250,7 @@ fn run_search(ctx: &Ctx, expiry: Option<u64>, root_cap: Option<u32>, want_order:
         roots: clock.root_sorts,
         q_at_cap: clock.queries_at_cap,
         panicked: r.is_err(),
+        runaway: clock.runaway,
         order,
     }
 }
@@ -261,7 +263,7 @@ fn search_result_str(o: &SearchOut) -> String {
         o.table_after,
         o.queries,
         o.roots,
-        if o.panicked { 1 } else { 0 }
+        if o.runaway { 2 } else if o.panicked { 1 } else { 0 }
     )
 }
 
